@@ -25,7 +25,9 @@ m={
           "baseline_off_cmd":"cd /repo && /venv/bin/python -m pytest -ra -q -p no:cacheprovider --timeout=900 --continue-on-collection-errors",
           "source_commits":[],"add_only":True},
  "engines":[{"name":"hypothesis-driver+cpython-workers","path":"/verif/run_check.py","serves_properties":[c["property_id"] for c in checks],
-   "kind_free_text":"Hypothesis 6.168 strategies / state machines in /venv (3.12) generate pure-data cases; persistent stdlib-only worker subprocesses on real CPython 3.7/3.8/3.9/3.10 build the inputs, run the library from /repo and evaluate oracles that share no code with it (dis/opcode tables, PyCode_Addr2Line, co_lines, inspect, _PyCode_ConstantKey)"}],
+   "kind_free_text":"Hypothesis 6.168 strategies / state machines in /venv (3.12) generate pure-data cases; persistent stdlib-only worker subprocesses on real CPython 3.7/3.8/3.9/3.10 build the inputs, run the library from /repo and evaluate oracles that share no code with it (dis/opcode tables, PyCode_Addr2Line, co_lines, inspect, _PyCode_ConstantKey)"},
+  {"name":"atheris-fuzz-c10","path":"/verif/harness/fuzz_c10.py","serves_properties":["C10"],
+   "kind_free_text":"coverage-guided tier of C10's thorough command: atheris 3.0 (libFuzzer) under python3-vt on code_data._line_mapping's stage functions with the round-trip / reference-reader oracle inside the target; failing inputs are re-verified through the worker path before they count"}],
  "checks":checks,
  "not_applicable":na,
  "notes":"exit 0 held / 1 VIOLATION / 2 harness error (never a violation). Known findings: /verif/known_findings.jsonl. VERIF_SEED seeds every Hypothesis run (seed*1000+shard). VERIF_REPO can aim the checks at a scratch copy (self-test only)."
